@@ -224,7 +224,7 @@ func (e *Exec) frameObligations(fr *Frame, exit *State, exitGuard string, envEnt
 			formula = Imp(And(ex...), Eq(Sel(exit.H[name], k), Sel(entryV, k)))
 		default:
 			r := e.Out.Fresh("frame$r", SInt)
-			conds := []string{"(<= " + r + " " + top0 + ")"}
+			conds := []string{"(<= (owner " + r + ") " + top0 + ")"}
 			_, _, twoLevel := arrayParts(vs)
 			if strings.HasPrefix(name, "M$") {
 				conds = append(conds, "(> "+r+" 0)") // the nil map has no observable row
